@@ -35,8 +35,10 @@ ASSUMPTIONS = [
     'fn:distinct-values / fn:unordered are judged up to order (and distinct-values up to the choice of representative); '
     'inside larger programs they only occur under count(), which makes the result order-independent',
     'decimal results whose expansion does not terminate (avg of integers) are compared with relative tolerance 1e-18',
-    'double results are compared exactly: generated doubles are small dyadic rationals, INF, -INF, NaN so sums are exact '
-    'and the correctly rounded quotient of avg is unique',
+    'double/float sums are compared exactly when every partial sum in every order is exact (all values multiples of '
+    'one power of two within the mantissa range: the generated doubles are small dyadic rationals, INF, -INF, NaN); '
+    'otherwise fn:sum/fn:avg at the root are compared with the recursive-summation error bound n*eps*sum|x| around the '
+    'exact rational result (F&O allows any order) and programs using such a sum elsewhere are not judged',
     'the xs:float value space is generated only with values exact in binary32; a result equal to the expected value '
     'after rounding to binary32 is bucketed apart (float32-precision)',
     'element nodes come from one fixed 6-element document selected with /r/name paths (path evaluation itself is C01)',
@@ -360,7 +362,15 @@ def judge_one(ast, v, check, localize=True):
                 info['status'] = 'skipped'
                 info['skipped'] = 'order-dependent'
                 return [], info
-            exp = ('val', interp.canon_seq(val))
+            if ip.inexact_sum is not None:
+                # a float sum whose value depends on the order of the additions (allowed by F&O)
+                if not (root == 'call' and ast[1] in ('sum', 'avg') and len(val) == 1):
+                    info['status'] = 'skipped'
+                    info['skipped'] = 'inexact-float-sum'
+                    return [], info
+                exp = ('approx', interp.canon_seq(val), ip.inexact_sum)
+            else:
+                exp = ('val', interp.canon_seq(val))
     except Budget as e:
         info['status'] = 'skipped'
         info['skipped'] = 'budget:' + str(e).split(':')[0][:30]
@@ -396,6 +406,19 @@ def judge_one(ast, v, check, localize=True):
         kind = f'unexpected-error:{obs[1]}'
     elif exp[0] == 'val':
         kind = seq_mismatch(exp[1], obs[1])
+    elif exp[0] == 'approx':
+        tag = exp[1][0][0]
+        exact, bound = exp[2]
+        if len(obs[1]) != 1:
+            kind = 'length'
+        elif obs[1][0][0] != tag:
+            kind = f'type:{tag}->{obs[1][0][0]}'
+        else:
+            o = float(obs[1][0][1])
+            if not math.isfinite(o) or abs(Fraction(o) - exact) > bound:
+                kind = 'value'
+            elif tag == 'f' and interp.f32(o) != o:
+                kind = 'float32-precision'
     elif exp[0] == 'perm':
         if sorted(map(canon, exp[1])) != sorted(map(canon, obs[1])):
             # tolerate integer-for-decimal etc. by pairing greedily
